@@ -11,7 +11,7 @@
    A complete behaviour is one script: PrintT("B {...}") when EmitOn. *)
 EXTENDS Folder, Json
 
-CONSTANTS MaxDown, MaxUp, MaxDepth, Sizes, UpSizes, Modes, EmitOn
+CONSTANTS MaxDown, MaxUp, MaxDownX, MaxUpX, MaxDepth, Sizes, UpSizes, Modes, EmitOn
 
 VARIABLES mode,   \* "down" | "up"
           start,  \* the tree on the server at the beginning
@@ -26,21 +26,34 @@ NT == <<97, 46, 116, 120, 116>>    \* a.txt
 NB == <<98>>                       \* b
 NH == <<46, 104>>                  \* .h
 Names == {NA, NT, NB, NH}
+NI == NA \o IncSfx                 \* a.incomplete : a name a user may give, and the on-disk name of a partial `a`
+NM == <<109>> \o IncSfx \o <<46, 121>>   \* m.incomplete.y : the suffix in the middle of a name
+XNames == {NA, NI, NM}
 
+(* trees: nodes are added one at a time below the root or below a (visible) folder of the tree; on-disk paths stay
+   unique (a partial `a` and a file named a.incomplete cannot both exist).  parts = lengths of partial files that
+   may occur (download trees only: the leftovers of interrupted uploads, possibly next to their final name) *)
 Parents(t) == {<<>>} \cup {n.path : n \in {x \in t : x.kind = "dir" /\ Len(x.path) < MaxDepth /\ ~Hidden(x)}}
-Taken(t) == {n.path : n \in t}
-NewNodes(t, szs) == UNION {{DirNode(p \o <<nm>>)} \cup {FileNode(p \o <<nm>>, z) : z \in szs} : p \in Parents(t), nm \in Names}
-Ext(t, szs) == {t \cup {nd} : nd \in {x \in NewNodes(t, szs) : x.path \notin Taken(t)}}
-RECURSIVE TreesUpTo(_, _)
-TreesUpTo(k, szs) == IF k = 0 THEN {{}}
-                     ELSE LET prev == TreesUpTo(k - 1, szs)
-                          IN prev \cup UNION {Ext(t, szs) : t \in {x \in prev : Cardinality(x) = k - 1}}
+OnDisk(t) == {DiskPath(n) : n \in t}
+NewNodes(t, szs, nms, parts) ==
+  UNION {{DirNode(p \o <<nm>>)} \cup {FileNode(p \o <<nm>>, z) : z \in szs} \cup {PartNode(p \o <<nm>>, j) : j \in parts}
+           : p \in Parents(t), nm \in nms}
+Ext(t, szs, nms, parts) == {t \cup {nd} : nd \in {x \in NewNodes(t, szs, nms, parts) : DiskPath(x) \notin OnDisk(t)}}
+RECURSIVE TreesUpTo(_, _, _, _)
+TreesUpTo(k, szs, nms, parts) ==
+  IF k = 0 THEN {{}}
+  ELSE LET prev == TreesUpTo(k - 1, szs, nms, parts)
+       IN prev \cup UNION {Ext(t, szs, nms, parts) : t \in {x \in prev : Cardinality(x) = k - 1}}
 
-DownTrees == TreesUpTo(MaxDown, Sizes)
-UpTrees == TreesUpTo(MaxUp, UpSizes) \ {{}}
+(* a local tree the server cannot store faithfully: a file x next to an entry named x.incomplete (the server keeps
+   the partial data of x under that very name) - outside the scripts *)
+Clash(t) == \E n, m \in t : n.kind = "file" /\ n # m /\ m.path = Front(n.path) \o <<Last(n.path) \o IncSfx>>
+
+DownTrees == TreesUpTo(MaxDown, Sizes, Names, {}) \cup TreesUpTo(MaxDownX, {2}, XNames, {1})
+UpTrees == (TreesUpTo(MaxUp, UpSizes, Names, {}) \cup {t \in TreesUpTo(MaxUpX, {2}, XNames, {}) : ~Clash(t)}) \ {{}}
 
 (* pre-existing states of the target for a local tree T *)
-MaxSize == CHOOSE m \in UpSizes : \A z \in UpSizes : z <= m
+MaxSize == CHOOSE m \in UpSizes \cup {2} : \A z \in UpSizes \cup {2} : z <= m
 Statuses == {[st |-> "absent", j |-> 0], [st |-> "there", j |-> 0]} \cup {[st |-> "part", j |-> j] : j \in 0..MaxSize}
 StatusOK(n, x) == IF n.kind = "dir" THEN x.st \in {"absent", "there"}
                   ELSE x.st \in {"absent", "there"} \/ (x.st = "part" /\ x.j <= n.size)
@@ -72,10 +85,10 @@ Step(s) == /\ ~fin
            /\ Apply(s)
            /\ hist' = Append(hist, s)
            /\ plan' = IF s.op = "upitem" THEN Tail(plan) ELSE plan
-           /\ fin' = (s.op = "dlend" \/ (s.op = "upend" /\ ph = "cut"))
+           /\ fin' = (s.op = "dlend")
            /\ UNCHANGED <<mode, start>>
 
-DoDlReq  == Downloading /\ ph = "idle" /\ ~WasCut /\ (mode = "down" => hist = <<>>) /\ Step([op |-> "dlreq"])
+DoDlReq  == Downloading /\ ph = "idle" /\ (mode = "down" => hist = <<>>) /\ Step([op |-> "dlreq"])
 DoDlItem == ph = "down" /\ todo # <<>> /\ \E s \in DlChoices(Head(todo)) : Step(s)
 DoDlEnd  == ph = "down" /\ todo = <<>> /\ Step([op |-> "dlend"])
 DoUpReq  == mode = "up" /\ hist = <<>> /\ Step([op |-> "upreq", count |-> Len(plan)])
@@ -89,7 +102,7 @@ Spec == Init /\ [][Next]_mcvars
 (* uploading a tree and downloading it again returns the same tree: the visible part of what the client streamed,
    in walk order, every file with all its bytes *)
 UpDownIdentity ==
-  (mode = "up" /\ out.op = "dlend") =>
+  (mode = "up" /\ out.op = "dlend" /\ ~WasCut) =>
      LET W == Walk(streamed)
      IN sent = [i \in DOMAIN W |-> [type |-> Hdr(W[i]).type, path |-> Hdr(W[i]).path,
                                     dlen |-> IF W[i].kind = "file" THEN W[i].size ELSE -1]]
